@@ -28,6 +28,9 @@ CLAIMED = {
  "C04": ("deterministic simulation with -race: writers x per-NACK resend goroutines x Unbind/Close under the simrt scheduler, plan-controlled pool recycling, stalled downstream writer, callers scribbling their buffers; history oracle (deep-copy equality + retransmittable-interval rule)",
          "Seeded exploration with the race detector on: 1-3 local streams (RTX or not, three padding forms, sizes 1..32768, DisableCopy), writer goroutines that scribble header/payload/CSRC/extension bytes as soon as Write returns, 1-2 RTCP read loops delivering NACKs (sent, never-sent, out-of-window, foreign, repeated numbers), a lifecycle goroutine (Unbind/Close), every interleaving at lock/yield points and whether a released pool buffer is recycled chosen by the plan. Every retransmission must equal the harness's deep copy of the original (plain or RFC 4588 form); per requested number: exactly m retransmissions if it was retransmittable during the whole handling of the NACK, none if it never was, either otherwise (unwrapped sequence arithmetic).",
          "Trusted: the history oracle, rtcp.Marshal for the injected NACKs, the race detector. One open known finding (DisableCopy ignores negotiated RTX). Sampling, not proof.", "DESIGN.md §5 C04"),
+ "C17": ("deterministic simulation: concurrent writers x the pacer's timer goroutine under the simrt scheduler on the fake clock, mid-stream SetRate, slow next writer, callers scribbling after return; exactly-once/FIFO/intact history oracle + token-bucket envelope + bounded liveness",
+         "Seeded exploration of pacing.Interceptor, gcc.LeakyBucketPacer and gcc.NoOpPacer: 1-3 streams, 1-4 writer goroutines (also two on one stream), all header shapes and payloads 0..1460, callers overwriting header/CSRC/extension/payload bytes right after Write returns, rate changes mid-stream, next writer that yields or stalls before reading what it was handed. Oracles over the recorded history: every accepted packet delivered exactly once to its own stream's writer with the header and payload it had when accepted; delivery order is a linearisation of the per-stream FIFO (real-time order, single consumer); for the token-bucket interceptor cumulative released bits <= largest burst in force + integral of the rate; after the writers stop everything accepted is delivered within queued-bits/rate plus a few intervals.",
+         "Trusted: the history oracle; the burst allowance is taken as the documented bucket size max(1500 bytes, rate x interval). One open known finding (packet not smaller than the burst blocks the queue). porcupine is not needed: with a single consumer the real-time-order check is exact. Sampling, not proof.", "DESIGN.md §5 C17"),
 }
 NA = {
  "C20": "pure single-threaded functions of their inputs (sequence unwrapping, NTP conversion): no schedule, clock, fault, I/O or second party for a simulator to control; deciding them is input enumeration/property-based testing, a different technique (they run as real code inside the C05/C07/C08/C09/C19 scenarios).",
